@@ -468,7 +468,8 @@ def _make_ext():
         "ParseBaseException": ExtType("ParseBaseException"),
     }
     ext["pyparsing"] = ExtMod("pyparsing", pp_attrs)
-    ext["sympy"] = ExtMod("sympy", {})
+    sym_float = ExtType("sympy.Float")
+    ext["sympy"] = ExtMod("sympy", {"core": ExtMod("sympy.core", {"numbers": ExtMod("sympy.core.numbers", {"Float": sym_float}), "symbol": ExtMod("sympy.core.symbol", {"Symbol": ExtType("sympy.Symbol")})})})
     ext["scipy.optimize"] = ExtMod("scipy.optimize", {})
     ext["scipy"] = ExtMod("scipy", {})
     ext["json"] = ExtMod("json", {})
